@@ -286,9 +286,9 @@ def sub_run(ctx, cmd, skf, aux, tag):
         p = ctx.sh(b, 'nk', skf, mem_gb=MEM_GB)
         return p.returncode, content_of(p.stdout)
     if cmd == 'merge3':
-        # the file as third argument, after another file and after an intact copy of itself (at least as large)
+        # the file as third argument, after a small file and after a different file that is larger than itself
         out = ctx.path('m3_%s' % tag)
-        p = ctx.sh(b, 'merge', aux['other'], aux['intact'], skf, '-o', out, mem_gb=MEM_GB)
+        p = ctx.sh(b, 'merge', aux['other'], aux['bigger'], skf, '-o', out, mem_gb=MEM_GB)
         if p.returncode != 0:
             return p.returncode, None
         q = ctx.sh(b, 'nk', '--full-info', out + '.skf')
@@ -363,7 +363,12 @@ def run_sub(desc, ctx, res):
     p = G.ska_build(ctx, ctx.path('other'), [ctx.path('other.fa')], k, rcflag)
     if p.returncode != 0:
         raise Inconclusive('aux build failed')
-    cmds = [c for c in SUBCOMMANDS if (c != 'lo' or desc.get('lo')) and (c != 'delete' or len(names) > 1)]
+    # a different file that decompresses to more bytes than the one under test: its own content plus two more samples
+    G.write_fa(ctx.path('other2.fa'), [G.rseq(rng, 4 * k)])
+    G.ska_build(ctx, ctx.path('other2'), [ctx.path('other2.fa')], k, rcflag)
+    pb = ctx.sh(ctx.ska, 'merge', ctx.path('other2.skf'), desc['skf_file'], aux['other'], '-o', ctx.path('bigger'))
+    aux['bigger'] = ctx.path('bigger.skf')
+    cmds = [c for c in SUBCOMMANDS if (c != 'lo' or desc.get('lo')) and (c != 'delete' or len(names) > 1) and (c != 'merge3' or pb.returncode == 0)]
     base = {}
     for c in cmds:
         base[c] = sub_run(ctx, c, desc['skf_file'], aux, 'orig')
